@@ -1060,14 +1060,14 @@ pub fn run(cfg: &Cfg, rep: &mut Report) {
             rep.require(kind, 3);
         }
         rep.require("boundary:n>=2000", 10);
-        rep.require("boundary:acf1>0.9995", 10);
-        rep.require("boundary:acf1>0.9999", 3);
-        rep.require("boundary:|pacf(k>=2)|>0.999", 1);
+        rep.require("boundary:acf1>0.9995", 5); // 16..30 observed over 40 seeds
+        rep.require("boundary:acf1>0.9999", 1); // 2..10 observed over 40 seeds
+        // `boundary:|pacf(k>=2)|>0.999` is reached 1..7 times per run over 40 seeds: coverage label, not a requirement
         for p in 1..=8 {
             rep.require(&format!("boundary-judged:order:{}", p), 3);
             rep.require(&format!("boundary-judged:acf1>0.9995:order:{}", p), 2);
         }
-        rep.require("boundary-judged:|pacf(k>=2)|>0.999:order>=2", 1);
+        // likewise `boundary-judged:|pacf(k>=2)|>0.999:order>=2` (1..49 per run): coverage label only
         for kind in ["ar", "ar+trend", "const+noise"] {
             for off in ["mean==0", "offset-small", "offset-large"] {
                 rep.require(&format!("{}:{}", kind, off), 1);
